@@ -64,16 +64,17 @@ Print Assumptions C14_root.
 (* For every state with distinct offered names (every well-formed state, see C14_offered_distinct), every reference and
    every non-empty pattern: getMatches returns each name once, and returns (name, selectable) exactly when RFC
    matching selects the name and it is an offered name (mailbox for LIST; subscribed name for LSUB) or — \Noselect —
-   only a superior of one (for LSUB: only if the pattern ends in %). *)
+   only a superior of one (for LSUB: only if the pattern ends in %).  The reference is a mailbox name to the command
+   parser: a reference that is INBOX in any spelling stands for INBOX (parse_mailbox). *)
 Theorem C14_list_exact : forall d st ref pat, NoDup (offered st false) -> pat <> [] ->
   NoDup (map fst (impl_list d st false ref pat)) /\
-  forall m sel, In (m, sel) (impl_list d st false ref pat) <-> spec_listed d st false ref pat m sel.
+  forall m sel, In (m, sel) (impl_list d st false ref pat) <-> spec_listed d st false (parse_mailbox ref) pat m sel.
 Proof. exact (fun d st => list_exact_lemma d st false). Qed.
 Print Assumptions C14_list_exact.
 
 Theorem C14_lsub_exact : forall d st ref pat, NoDup (offered st true) -> pat <> [] ->
   NoDup (map fst (impl_list d st true ref pat)) /\
-  forall m sel, In (m, sel) (impl_list d st true ref pat) <-> spec_listed d st true ref pat m sel.
+  forall m sel, In (m, sel) (impl_list d st true ref pat) <-> spec_listed d st true (parse_mailbox ref) pat m sel.
 Proof. exact (fun d st => list_exact_lemma d st true). Qed.
 Print Assumptions C14_lsub_exact.
 
